@@ -481,6 +481,16 @@ func (env *SpecEnv) ident(id *ast.Ident) Val {
 				return v
 			}
 		}
+		if alt, ok := env.fc.rebind[id.Name]; ok {
+			if v, ok := env.lookupVar(alt); ok {
+				return v
+			}
+			if sv, ok := env.fr.names[alt]; ok {
+				if v, ok := env.fr.vals[sv]; ok {
+					return v
+				}
+			}
+		}
 	}
 	if env.pkg != nil {
 		if obj := env.pkg.Scope().Lookup(id.Name); obj != nil {
